@@ -58,8 +58,7 @@ class Recorder:
         self.gfm = None
         self.tracing = False
         for tid, name in ((TRACE_ID, "verif-c01-trace"), (COUNT_ID, "verif-c01-count")):
-            if mon.get_tool(tid) is None:
-                mon.use_tool_id(tid, name)
+            vlib.claim_tool(tid, name)
         mon.register_callback(TRACE_ID, mon.events.PY_START, self._start)
         mon.register_callback(TRACE_ID, mon.events.PY_RETURN, self._ret)
         for c in (self.c_iter, self.c_line, self.c_close):
@@ -199,8 +198,7 @@ class CloseLoopRecorder:
         from pymarkdown.list_blocks.list_block_create_new_handler import ListBlockCreateNewHandler as LH
         self.tk, self.limit = tk, limit
         self.code = LH.__dict__["_ListBlockCreateNewHandler__close_next_level_of_lists"].__func__.__code__
-        if mon.get_tool(self.TOOL) is None:
-            mon.use_tool_id(self.TOOL, "verif-c01-closeloop")
+        vlib.claim_tool(self.TOOL, "verif-c01-closeloop")
         mon.register_callback(self.TOOL, mon.events.PY_START, self._start)
         mon.register_callback(self.TOOL, mon.events.PY_RETURN, self._ret)
         mon.set_local_events(self.TOOL, self.code, mon.events.PY_START | mon.events.PY_RETURN)
